@@ -237,8 +237,13 @@ impl Minifier
 							return Ok(Navigation::GotoSibling);
 						}
 					}
-					// if no previous statement we keep token, or delete line
-					if self.flags & FLAG_DEL_LINES > 0 && self.curr_linenum.is_some() {
+					// if no previous statement we keep token, or delete line; a comment that is the object of THEN
+					// is not the whole line, the statements before the IF and the IF itself have to stay
+					let top_level = match curs.node().parent() {
+						Some(parent) => parent.kind()=="line",
+						None => false
+					};
+					if self.flags & FLAG_DEL_LINES > 0 && self.curr_linenum.is_some() && top_level {
 						self.minified_line = String::new();
 						self.deleted_lines.push(self.curr_linenum.unwrap());
 						return Ok(Navigation::Exit);
